@@ -158,5 +158,46 @@ class RegLanUnit:
             "RegLan lemmas drop look-arounds and \\b (the language is enlarged: sound for 'no word of L(p) ...' claims)"]}
 
 
+class VocabUnit:
+    """every surface form of the specification grammar is matched entirely by the pattern of the
+    intended rule and sets the intended groups: exhaustive over the finite vocabulary of
+    spec/vocab.py, decided with the real regex engine"""
+    kind = "vocab"
+    name = "rule.patterns.vocabulary"
+    props = {"C03", "C04", "C05", "C06", "C07", "C08", "C20"}
+    cost = 2
+
+    def sha(self, world):
+        import hashlib
+        return hashlib.sha256(repr(sorted(world.consts["regex_str"].items())).encode()).hexdigest()[:16]
+
+    def run(self, world, prop, tier):
+        import json
+        import os
+        import subprocess
+        from pyvc import world as W
+        env = dict(os.environ, PYTHONPATH=world.repo + os.pathsep + W.VERIF, PYTHONDONTWRITEBYTECODE="1")
+        p = subprocess.run([W.VENV_PY, "-W", "ignore", os.path.join(W.VERIF, "replay", "vocab_check.py")],
+                           cwd=world.repo, env=env, capture_output=True, text=True, timeout=600)
+        obs = []
+        try:
+            res = json.loads(p.stdout.strip().splitlines()[-1])
+        except Exception:
+            o = _ob("vocabulary", "check-ran", sorted(self.props), False, "vocabulary check crashed: " + (p.stderr or p.stdout)[-600:])
+            o.status = "unsupported"
+            return [o], {"paths": 1}
+        n = 0
+        for fam, st in sorted(res.items()):
+            props = [x for x in fam.split(" ")[0].split("/")]
+            n += st["n"]
+            o = _ob("vocabulary[%s]" % fam.split(" ", 1)[1], "words-matched-entirely-with-intended-groups", props, not st["bad"],
+                    "%d of %d words fail, e.g. %s" % (len(st["bad"]), st["n"], json.dumps(st["bad"][:2], ensure_ascii=False)),
+                    kind="vocab", cex={"args": {"kind": "vocab", "examples": st["bad"][:5]}})
+            o.confirmed_natively = bool(st["bad"])
+            o.paths = st["n"]
+            obs.append(o)
+        return obs, {"paths": n, "assumptions": ["vocabulary lemmas are finite: every listed word is checked with the real regex engine (fullmatch)"]}
+
+
 def units(world):
-    return [RegistryUnit(), RegLanUnit()]
+    return [RegistryUnit(), RegLanUnit(), VocabUnit()]
